@@ -76,22 +76,7 @@ def find_verifiers(db):
     """bodies that construct CredentialsExt, studied with their helper functions inlined (s3sv/inline.py); a helper that only builds the
     value for a verifier is part of that verifier, not a verifier of its own"""
     direct = [b for b in db.grep("s3s::ops::signature::CredentialsExt") if b.crate == "s3s" and _constructs_cred(b)]
-    cands = {b.name: b for b in direct}
-    for b in direct:
-        if inline.default_policy(db, None, None, b):
-            for cb, _, _ in db.callers_of(b.name):
-                if cb.crate == "s3s":
-                    cands.setdefault(cb.name, cb)
-        elif b.kind == "Closure" and b.raw.get("coroutine"):
-            # coroutine of an `async fn` helper: its callers await it (the poll site is where it gets inlined)
-            h = db.bodies.get(b.parent)
-            if h is not None and h.kind in ("Fn", "AssocFn") and short(h.name) not in inline.anchor_names():
-                for cb, _, _ in db.callers_of(h.name):
-                    if cb.crate == "s3s":
-                        cands.setdefault(cb.name, cb)
-    inl = {n: inline.inlined(db, b) for n, b in cands.items()}
-    helpers = {h for ib in inl.values() for h in getattr(ib, "inlined_from", [])}
-    return [Verifier(db, ib) for n, ib in sorted(inl.items()) if n not in helpers and _constructs_cred(ib)]
+    return [Verifier(db, ib) for ib in inline.roots_with(db, direct, _constructs_cred)]
 
 
 def first_writes_from(body, edges, rw=None):
